@@ -3,3 +3,8 @@ from . import spec_midi          # noqa: F401
 from . import c_messages         # noqa: F401
 from . import b_messages         # noqa: F401
 from . import c_state            # noqa: F401
+from . import c_parser           # noqa: F401
+try:
+    from . import l_parser       # noqa: F401  (lemmas need z3; absent on the replay side)
+except ImportError:
+    pass
